@@ -1878,7 +1878,7 @@ struct TemplateCore {
             break;
         }
 
-        if (offset > end_offset) {
+        if ((offset > end_offset) && (last_oper == QOperation::NoOp)) {
             return exprs;
         }
 
